@@ -104,6 +104,9 @@ func at(root any, path string) any {
 
 var prevSchemaText []byte
 
+// longLivedWarmUp: the non-recycling validator of the current case validates other documents first (set per case).
+var longLivedWarmUp bool
+
 func runValidator(st, it []byte, recycle bool) (*validate.Result, any, sut.Outcome) {
 	var res *validate.Result
 	var data any
@@ -132,13 +135,37 @@ func runValidator(st, it []byte, recycle bool) (*validate.Result, any, sut.Outco
 		if recycle {
 			opts = append(opts, validate.WithRecycleValidators(true))
 		}
-		res = validate.NewSchemaValidator(s, nil, "", strfmt.Default, opts...).Validate(data)
+		v := validate.NewSchemaValidator(s, nil, "", strfmt.Default, opts...)
+		if !recycle && longLivedWarmUp {
+			// the validator object is long-lived: it first judges a copy of the data, gets that copy's defaults applied
+			// (so the defaulted members are PRESENT), judges the filled copy again, and only then the data itself, in
+			// which those members are absent: what it noted about the first documents must not matter
+			if warm, err := sut.Value(it); err == nil {
+				_ = sut.Guard(func() sut.Outcome {
+					// the copy is filled by ANOTHER validator first, so that the very first document this validator
+					// sees has the defaulted members present
+					if s1, err := sut.Schema(st); err == nil {
+						post.ApplyDefaults(validate.NewSchemaValidator(s1, nil, "", strfmt.Default).Validate(warm))
+					}
+					post.ApplyDefaults(v.Validate(warm))
+					v.Validate(warm)
+					// ... and a second copy which gets pruned and judged again (undescribed members gone)
+					if warm2, err := sut.Value(it); err == nil {
+						post.Prune(v.Validate(warm2))
+						v.Validate(warm2)
+					}
+					return sut.Outcome{Valid: true}
+				})
+			}
+		}
+		res = v.Validate(data)
 		return sut.FromResult(res)
 	})
 	return res, data, o
 }
 
 func (p *c18) Run(w *lib.Worker, idx int, r *lib.Rand) lib.Case {
+	longLivedWarmUp = idx%2 == 1
 	st, it, schema, inst, ok := validPair(r, true)
 	if !ok {
 		return lib.Case{Tags: []string{"no-valid-instance"}}
@@ -282,6 +309,7 @@ func (p *c18) Finish(a *lib.Aggregate) (broken []string) {
 }
 
 func (p *c19) Run(w *lib.Worker, idx int, r *lib.Rand) lib.Case {
+	longLivedWarmUp = idx%2 == 1
 	st, it, schema, inst, ok := validPair(r, idx%3 != 0)
 	if !ok {
 		return lib.Case{Tags: []string{"no-valid-instance"}}
